@@ -444,10 +444,10 @@ theorem basic_mul_spec {α R : Type} [CommRing R] {o : Ops α} {φ : α → R} (
       poly (z'.map φ) = poly (p.map φ) * poly (q.map φ) :=
   basicMul_spec h z p q hp hq hz
 
-/-- **`Poly::karatsuba` equals the schoolbook product on its whole domain.** `karaOk f lp lq zl tl`
+/-- **`Poly::karatsuba` equals the schoolbook product.** `karaOk f lp lq zl tl`
 (Ymq/Model/PolyMul.lean, executable) says that for operand lengths `lp`, `lq`, `|z| = zl`, `|tmp| = tl`
-and recursion fuel `f` the code reaches no panic site and forms no product with an empty operand
-(the code's `FIXME: fix unbalanced inputs`). On that domain the model — threshold 20, split point
+and recursion fuel `f` no panic site is reached. On that domain the model — threshold 20, the
+schoolbook fallback for unbalanced operands added by commit 5b13664, split point
 `half = ⌈max(lp, lq)/2⌉`, sums `plo + phi`, `qlo + qhi` built in `tmp[2half..]`, middle product in
 `tmp[..2half]` with `z` as scratch, low/high products in `z[..2half]`, `z[2half..]` with
 `tmp[2half..]` as scratch, subtraction of the high product on its first `hilen` entries only,
@@ -459,25 +459,28 @@ theorem karatsuba_spec {α R : Type} [CommRing R] {o : Ops α} {φ : α → R} (
       tmp'.length = tmp.length ∧ poly (z'.map φ) = poly (p.map φ) * poly (q.map φ) :=
   Ymq.PolyMul.karatsuba_spec h f z p q tmp hok
 
-/-- equal lengths are always inside the domain (with `|z| ≥ 2l`, `|tmp| ≥ 3l`), and so are e.g. the
-unequal lengths 15 × 17 of `roots_eval` (base case) and 43 × 42 (recursive case) -/
+/-- **the domain is everything**: after the fix EVERY pair of operand lengths `lp, lq ≥ 1` is
+admitted as soon as `|z| ≥ lp + lq`, `|tmp| ≥ 3·max(lp, lq)` and the fuel covers
+`max(lp, lq) ≤ 20·2^f` — in particular `lp < lq`, 64 × 40 (panic before the fix) and 43 × 22. -/
 theorem karatsuba_domain :
-    (∀ f l zl tl, 1 ≤ l → l ≤ 20 * 2 ^ f → 2 * l ≤ zl → 3 * l ≤ tl → karaOk (f + 1) l l zl tl = true) ∧
-    karaOk 64 15 17 32 96 = true ∧ karaOk 64 43 42 86 258 = true ∧ karaOk 64 43 22 86 258 = false :=
-  ⟨karaOk_equal, by decide, by decide, by decide⟩
+    (∀ f lp lq zl tl, 1 ≤ lp → 1 ≤ lq → max lp lq ≤ 20 * 2 ^ f → lp + lq ≤ zl → 3 * max lp lq ≤ tl →
+      karaOk (f + 1) lp lq zl tl = true) ∧
+    karaOk 64 15 17 32 96 = true ∧ karaOk 64 31 33 64 192 = true ∧ karaOk 64 64 40 128 384 = true :=
+  ⟨karaOk_total, by decide, by decide, by decide⟩
 
-/-- **`Poly::mul_karatsuba`** for equal lengths `1 ≤ l ≤ 20·2^63`: the schoolbook product padded to
-`2l` coefficients, over any commutative ring image of the coefficient operations. -/
+/-- **`Poly::mul_karatsuba`** for all lengths `1 ≤ |q| ≤ |p| ≤ 20·2^63` (its buffers are sized by
+`|p|`): the schoolbook product padded to `2|p|` coefficients, over any commutative ring image of the
+coefficient operations. -/
 theorem mul_karatsuba_spec {α R : Type} [CommRing R] {o : Ops α} {φ : α → R} (h : Hom o φ)
-    (p q : List α) (hl : p.length = q.length) (h1 : 1 ≤ p.length) (h2 : p.length ≤ 20 * 2 ^ 63) :
+    (p q : List α) (hl : q.length ≤ p.length) (h1 : 1 ≤ q.length) (h2 : p.length ≤ 20 * 2 ^ 63) :
     ∃ z', mulKaratsuba o p q = some z' ∧ z'.length = 2 * p.length ∧
       poly (z'.map φ) = poly (p.map φ) * poly (q.map φ) :=
   mulKaratsuba_spec h p q hl h1 h2
 
 /-- the same for what the driver runs (`natOps n`, residues modulo `n > 0`): every coefficient of
 the model's answer is congruent modulo `n` to the schoolbook coefficient `PolySpec.mulCoef`. -/
-theorem mul_karatsuba_zmod (n : Nat) (hn : 0 < n) (p q : List Nat) (hl : p.length = q.length)
-    (h1 : 1 ≤ p.length) (h2 : p.length ≤ 20 * 2 ^ 63) :
+theorem mul_karatsuba_zmod (n : Nat) (hn : 0 < n) (p q : List Nat) (hl : q.length ≤ p.length)
+    (h1 : 1 ≤ q.length) (h2 : p.length ≤ 20 * 2 ^ 63) :
     ∃ z', mulKaratsuba (natOps n) p q = some z' ∧ z'.length = 2 * p.length ∧
       ∀ k, ((z'.getD k 0 : ℕ) : ZMod n) =
         ((mulCoef (fun i => p.getD i 0) (fun i => q.getD i 0) k : ℕ) : ZMod n) := by
